@@ -232,10 +232,10 @@ fn lattice(run: &mut Run, dicts: &[DictCase], tier: Tier) {
     let d = dicts.iter().find(|d| d.name.starts_with("model")).unwrap();
     let dl = d.model.content.len();
     let mut cases = vec![];
-    for p in 0..=8usize {
+    for p in 0..=tier.pick(8usize, 24) {
         for ll in [0usize, 2] {
             for r in 1..=dl + 1 {
-                for ml in 3..=tier.pick(12usize, 20) {
+                for ml in 3..=tier.pick(12usize, 40) {
                     cases.push((p, ll, r, ml));
                 }
             }
@@ -443,7 +443,7 @@ fn histories(run: &mut Run, dicts: &[DictCase], tier: Tier) {
         f[6] = 0xEE; // another dictionary id
         f
     };
-    let depth = tier.pick(3u32, 4);
+    let depth = tier.pick(3u32, 5);
     let total = items.len().pow(depth);
     let decode_one = |dec: &mut FrameDecoder, it: It| -> String {
         let (frame, limit): (&[u8], usize) = match it {
